@@ -8,3 +8,23 @@ package fileutil
 // T (assumption A4): FileMD5 reads the file and has no effect on program state
 //@ func FileMD5 trusted
 //@   modifies nothing
+
+//@ func Copy trusted
+//@   modifies nothing
+
+// ---------------------------------------------------------------- write-ahead discipline (C06 C07)
+
+// the destination is only ever replaced by a rename of a completely written temporary
+//@ func writeJSON
+//@   before call os.WriteFile assert atomic-replace: arg0 == path + LockExt
+//@   before call os.Rename assert atomic-replace: arg0 == path + LockExt && arg1 == path && called(os.WriteFile) && lastret(os.WriteFile, 0) == nil && lastarg(os.WriteFile, 0) == arg0 && ncalls(os.Rename) == 0
+//@   on return assert written-means-renamed: err == nil ==> called(os.Rename) && lastret(os.Rename, 0) == nil
+//@   forbid call os.Create label atomic-replace
+//@   forbid call os.OpenFile label atomic-replace
+
+//@ func Move
+//@   before call os.Rename(dst+LockExt, dst) assert two-step: (ncalls(os.Rename) == 1 && prevret(os.Rename, 0, 0) == nil && lastarg(os.Rename, 0) == src && lastarg(os.Rename, 1) == dst+LockExt) || (called(Copy) && lastret(Copy, 0) == nil && lastarg(Copy, 0) == src && lastarg(Copy, 1) == dst+LockExt && called(os.Remove) && lastret(os.Remove, 0) == nil && lastarg(os.Remove, 0) == src)
+//@   before call os.Remove assert source-removed-after-copy: arg0 == src && called(Copy) && lastret(Copy, 0) == nil
+//@   before call os.Rename assert writes-only-the-temporary-or-swaps-it-in: (arg0 == src && arg1 == dst+LockExt) || (arg0 == dst+LockExt && arg1 == dst)
+//@   before call Copy assert writes-only-the-temporary-or-swaps-it-in: arg0 == src && arg1 == dst+LockExt
+//@   on return assert moved-means-swapped-in: r0 == nil ==> lastarg(os.Rename, 1) == dst && lastret(os.Rename, 0) == nil
